@@ -135,7 +135,7 @@ def run(ctx):
     ctx.traces += len(results)
     ctx.sample({"history": results[-1]["history"], "alive": results[-1].get("alive"),
                 "final_ok": results[-1].get("final_ok")})
-    ctx.assumptions = ["a valid handshake is tried up to 3 times (slowness under 50 stalled connections is not refusal)"]
+    ctx.assumptions = ["the final valid handshake is tried once (15 s) unless the history leaves load behind (stalled connections, storms): then up to 3 times — slowness is not refusal"]
     extra = {"exhaustive": True, "profile": prof}
     return ctx.finish(extra=extra, **FINISH)
 
